@@ -241,7 +241,7 @@ func ruleC11(c *Ctx) {
 	tr := c.Func(pProto, "(*Chain).tryReorganize")
 	if tr != nil {
 		c.RequireErrProp("errprop", tr, false, "(*protocol.Chain).GetHeaderByHash")
-		c.RequireCall("mustpass", c.ScopeIf(tr, "best hash differs", 1, callsKey("(*protocol/bc/types.BlockHeader).Hash")), true, "(*protocol.Chain).reorganizeChain")
+		c.RequireCall("mustpass", c.ScopeWhen(tr, "best hash differs", "call:(*protocol/bc/types.BlockHeader).Hash != param#1"), true, "(*protocol.Chain).reorganizeChain")
 	}
 	pb := c.Func(pProto, "(*Chain).processBlock")
 	if pb != nil {
@@ -392,7 +392,7 @@ func ruleC19(c *Ctx) {
 	c.RequireOrder("order", av, "(protocol/state.Store).SaveCheckpoints", "(*protocol/casper.Casper).saveVerificationToHeader")
 	c.RequireErrProp("errprop", av, false, "(protocol/state.Store).SaveCheckpoints")
 	ab := c.Func(pCasper, "(*Casper).ApplyBlock")
-	c.RequireCall("mustpass", c.ScopeIf(ab, "block not yet applied", 1, callsKey("(*protocol/casper.treeNode).nodeByHash")), true, "(*protocol/casper.Casper).saveCheckpoints")
+	c.RequireCall("mustpass", c.ScopeWhen(ab, "block not yet applied", "call:(*protocol/casper.treeNode).nodeByHash == nil"), true, "(*protocol/casper.Casper).saveCheckpoints")
 	sb := c.Func(pProto, "(*Chain).saveBlock")
 	c.RequireOrder("order", sb, pVal+".ValidateBlock", "(protocol/state.Store).SaveBlock")
 	c.RequireErrProp("errprop", sb, false, "(protocol/state.Store).SaveBlock", "(*protocol/casper.Casper).ApplyBlock")
